@@ -10,7 +10,7 @@ import os, sys, json, collections, random
 from vf import common, thr
 from vf.common import Check
 
-G_EARLY_US = 5000        # timer granularity
+G_EARLY_US = 12000       # libevent arms and fires timers by CLOCK_MONOTONIC_COARSE (4 ms ticks here, measured lag up to 6 ms idle, more under load): three ticks
 G_ORDER_US = 50000       # margin for ordering / cancel rules
 ANCHORS = ['BasicDelayedEventQueue.cpp', 'BasicDelayedEventQueue.h', 'InterpreterImpl.cpp', 'InterpreterImpl.h', 'BasicContentExecutor.cpp', 'SCXMLIOProcessor.cpp']
 
